@@ -774,9 +774,12 @@ def c03_case(problem, domain, pw, mesh_spec, elem_index=None, rule=None):
     elems = ns["elems"]
     out = []
     for i in (range(len(elems)) if elem_index is None else [elem_index]):
-        with quiet():
-            I, A, n = residual_moments(ns["residual"], elems[i], elems, rule)
-        out.append(dict(index=i, elem=repr(elems[i]), mean=I, l1=A, ok=abs(I) <= C03_REL * A + C03_ABS))
+        try:
+            with quiet():
+                I, A, n = residual_moments(ns["residual"], elems[i], elems, rule)
+            out.append(dict(index=i, elem=repr(elems[i]), mean=I, l1=A, ok=abs(I) <= C03_REL * A + C03_ABS))
+        except Exception as exc:                                   # evaluating the residual raised: violation
+            out.append(dict(index=i, elem=repr(elems[i]), raised="{}: {}".format(type(exc).__name__, exc), ok=False))
     return out
 
 
@@ -823,7 +826,7 @@ def run_c03(chk, tier, seed, only=None):
     t_solve = time.time() - t_solve
     states, tasks = {}, []
     raised = {}
-    per_combo_cap = 40 if tier == "thorough" else 10 ** 9
+    per_combo_cap = 32 if tier == "thorough" else 10 ** 9
     rng = random.Random(seed + 17)
     for k, (combo, sol) in enumerate(zip(combos, solved)):
         if "raised" in sol:
@@ -906,11 +909,13 @@ def run_c03(chk, tier, seed, only=None):
                         integrate_seconds=round(t_int, 1)))
     bound = ("problem x domain combinations accepted by the driver (Smooth: UnitSquare, PiSquare; Singular: UnitSquare, LShape; "
              "Dirichlet, MildSingular: UnitSquare, PiSquare, LShape, Circle) x straight-panel switch False/True; one seeded "
-             "random-bisection mesh per combination (quick 8-18 leaves, thorough 28-150 leaves with at most 40 sampled leaves "
+             "random-bisection mesh per combination (quick 8-18 leaves, thorough 20-150 leaves with at most 32 sampled leaves "
              "integrated per combination), aspect h_x^2/h_t <= 32; {drv}; use_mp=True patched to False; "
              "|int_E r| <= {rel:g} int_E |r| + {ab:g}, integrals by a composite Gauss({n}) rule split at interior mesh levels "
              "and graded (factor {ratio}) {lo}x towards the start and {hi}x towards the end of every time piece and {lx}x "
-             "towards both ends of every space piece").format(drv=drv.text(), rel=C03_REL, ab=C03_ABS, n=C03_RULE["n"],
+             "towards both ends of every space piece (fewer layers where a node would come closer than {dmin:g} to a panel end: "
+             "SL.evaluate asserts a distance > 1e-5 there); reference error measured <= 1.3e-6 of int|r| on 60-72 leaf meshes "
+             "(the pw_exact residual itself is orthogonal to ~1e-10 under a 150 000-point rule)").format(dmin=C03_RULE["dmin"], drv=drv.text(), rel=C03_REL, ab=C03_ABS, n=C03_RULE["n"],
                                                               ratio=C03_RULE["ratio"], lo=C03_RULE["lt_lo"],
                                                               hi=C03_RULE["lt_hi"], lx=C03_RULE["lx"])
     _report(chk, "C03", results, n_eval, bound, "one case per (problem, domain, clause); evaluations = leaves integrated", samples)
@@ -921,7 +926,8 @@ def _c03_replay(combo, elem_index):
     problem, domain, pw, spec = combo
     code = ("from bounded import potential_rel as P\n"
             "out = P.c03_case({p!r}, {d!r}, {pw!r}, {spec!r}, elem_index={i!r})   # a raise of the driver statements is a violation too\n"
-            "print(out)\nviolated = any(not o['ok'] for o in out)\n").format(p=problem, d=domain, pw=pw, spec=tuple(spec), i=elem_index)
+            "print(out)\nviolated = any(not o['ok'] for o in out)\n").format(p=problem, d=domain, pw=pw, spec=tuple(spec),
+                                                                           i=0 if elem_index is None else elem_index)
     confirmed = True
     try:
         out = c03_case(problem, domain, pw, spec, elem_index=elem_index if elem_index is not None else 0)
@@ -934,7 +940,26 @@ def _c03_replay(combo, elem_index):
 # ------------------------------------------------------------------------------------------------------
 # reporting
 # ------------------------------------------------------------------------------------------------------
+def _jsonable(x):
+    """strict-JSON friendly copy of a detail structure (inf/nan -> text, tuples -> lists, numpy scalars -> python)"""
+    if isinstance(x, dict):
+        return {str(k): _jsonable(v) for k, v in x.items()}
+    if isinstance(x, (list, tuple)):
+        return [_jsonable(v) for v in x]
+    if isinstance(x, bool) or x is None or isinstance(x, (int, str)):
+        return x
+    try:
+        f = float(x)
+    except (TypeError, ValueError):
+        return str(x)
+    if f != f or f in (float("inf"), float("-inf")):
+        return str(f)
+    return int(x) if hasattr(x, "dtype") and "int" in str(getattr(x, "dtype", "")) else f
+
+
 def _report(chk, pid, results, n_eval, bound, rule, samples):
+    results = [(c, ok, _jsonable(d), r) for c, ok, d, r in results]
+    samples = [_jsonable(x) for x in samples]
     for clause, ok, detail, replay in results:
         name = "{}/bounded/{}".format(pid, clause)
         if ok:
